@@ -532,6 +532,19 @@ def compound_cases():
         for what in order:
             if what == "net":
                 s.add_objects(net(**(netkw or {})))
+            elif what == "net-through-the-network-object":
+                # the same road network, put together through the scenario's LaneletNetwork object instead of Scenario.add_objects
+                n_ = net(**(netkw or {}))
+                tgt = s.lanelet_network
+                tgt.information = n_.information
+                for l_ in n_.lanelets:
+                    tgt.add_lanelet(l_)
+                for sg_ in n_.traffic_signs:
+                    tgt.add_traffic_sign(sg_, set())
+                for tl_ in n_.traffic_lights:
+                    tgt.add_traffic_light(tl_, set())
+                for it_ in n_.intersections:
+                    tgt.add_intersection(it_)
             elif what == "o1":
                 s.add_objects(StaticObstacle(30, ObstacleType.PARKED_VEHICLE, rect(c=(0, 0), o=0.0), init_state(x=o1x)))
             elif what == "o2":
@@ -545,7 +558,8 @@ def compound_cases():
         "Scenario": (scen, [("dt", lambda: scen(dt=0.2)), ("obstacle-state+eps", lambda: scen(o1x=1.0 + EPS)), ("tags", lambda: scen(tags=(Tag.URBAN,))),
                             ("author", lambda: scen(author="b")), ("network", lambda: scen(netkw=dict(dx=EPS))), ("obstacle-missing", lambda: scen(order=("net", "o1"))),
                             ("location", lambda: scen(loc=False)), ("scenario-id", lambda: scen(sidkw=dict(map_id=3)))],
-                     [("insertion-order", lambda: scen(order=("o2", "net", "o1"))), ("tag-order", lambda: scen(tags=(Tag.HIGHWAY, Tag.URBAN)))]),
+                     [("insertion-order", lambda: scen(order=("o2", "net", "o1"))), ("tag-order", lambda: scen(tags=(Tag.HIGHWAY, Tag.URBAN))),
+                      ("network-built-through-the-network-object", lambda: scen(order=("net-through-the-network-object", "o1", "o2")))]),
     }
 
 
